@@ -109,89 +109,115 @@ func (parser *Parser) ParseList(depth int, endTokenTyp TokenType) (sx Sexp, err 
 	defer func() { parser.recur-- }()
 
 	lexer := parser.lexer
-	var tok Token
 
-tokFilled:
+	// The pairs are linked front to back in a loop, not by one call
+	// per element: how long a list is, is up to the input, and the
+	// Go stack is not unlimited.
+	var first, last *SexpPair
+
+	// failed: what an error gives back. As ever: nothing when the
+	// first element is at fault, the first pair alone after that.
+	failed := func(err error) (Sexp, error) {
+		if first == nil {
+			return SexpNull, err
+		}
+		first.Tail = nil
+		return first, err
+	}
+	// finish closes the list with its tail.
+	finish := func(tail Sexp) (Sexp, error) {
+		if first == nil {
+			return tail, nil
+		}
+		last.Tail = tail
+		return first, nil
+	}
+
 	for {
-		tok, err = lexer.PeekNextToken(0)
-		//Q("\n ParseList(depth=%d) got lexer.PeekNextToken() -> tok='%v' err='%v'\n", depth, tok, err)
+		var tok Token
+
+	tokFilled:
+		for {
+			tok, err = lexer.PeekNextToken(0)
+			//Q("\n ParseList(depth=%d) got lexer.PeekNextToken() -> tok='%v' err='%v'\n", depth, tok, err)
+			if err != nil {
+				return failed(err)
+			}
+			if tok.typ != TokenEnd {
+				break tokFilled
+			}
+			// instead of returning UnexpectedEnd, we:
+			parser.sendMe.Err = ErrMoreInputNeeded
+			ok := parser.yield(parser.sendMe)
+			if !ok {
+				return finish(SexpEnd)
+			}
+			//Q("\n ParseList(depth=%d) got back from parser.GetMoreInput(): '%v'\n", depth, err)
+
+			// have to still fill tok, so
+			// loop to the top to PeekNextToken
+		}
+
+		// allow TokenRCurly to end a list too, for the JSON {} style hashes.
+		if tok.typ == endTokenTyp {
+			_, _ = lexer.GetNextToken()
+			return finish(SexpNull)
+		}
+
+		var start = &SexpPair{}
+
+		expr, err := parser.ParseExpression(depth + 1)
 		if err != nil {
-			return SexpNull, err
+			return failed(err)
 		}
-		if tok.typ != TokenEnd {
-			break tokFilled
-		}
-		// instead of returning UnexpectedEnd, we:
-		parser.sendMe.Err = ErrMoreInputNeeded
-		ok := parser.yield(parser.sendMe)
-		if !ok {
-			return SexpEnd, nil
-		}
-		//Q("\n ParseList(depth=%d) got back from parser.GetMoreInput(): '%v'\n", depth, err)
 
-		// have to still fill tok, so
-		// loop to the top to PeekNextToken
-	}
+		start.Head = expr
 
-	// allow TokenRCurly to end a list too, for the JSON {} style hashes.
-	if tok.typ == endTokenTyp {
-		_, _ = lexer.GetNextToken()
-		return SexpNull, nil
-	}
-
-	var start = &SexpPair{}
-
-	expr, err := parser.ParseExpression(depth + 1)
-	if err != nil {
-		return SexpNull, err
-	}
-
-	start.Head = expr
-
-	// the list is still open: what follows the head may not have
-	// arrived yet, so wait for it rather than take the end of the
-	// available input for "not a backslash".
-	tok, err = parser.ParserPeekNextToken(0)
-	if err != nil {
-		return SexpNull, err
-	}
-
-	// backslash '\' replaces dot '.'
-	if tok.typ == TokenBackslash {
-		// eat up the backslash
-		_, _ = lexer.GetNextToken()
-		// wait for the tail, and then for the closing paren
-		if _, err = parser.ParserPeekNextToken(0); err != nil {
-			return SexpNull, err
-		}
-		expr, err = parser.ParseExpression(depth + 1)
+		// the list is still open: what follows the head may not have
+		// arrived yet, so wait for it rather than take the end of the
+		// available input for "not a backslash".
+		tok, err = parser.ParserPeekNextToken(0)
 		if err != nil {
-			return SexpNull, err
-		}
-		if _, err = parser.ParserPeekNextToken(0); err != nil {
-			return SexpNull, err
+			return failed(err)
 		}
 
-		// eat up the end paren
-		tok, err = lexer.GetNextToken()
-		if err != nil {
-			return SexpNull, err
+		// backslash '\' replaces dot '.'
+		if tok.typ == TokenBackslash {
+			// eat up the backslash
+			_, _ = lexer.GetNextToken()
+			// wait for the tail, and then for the closing paren
+			if _, err = parser.ParserPeekNextToken(0); err != nil {
+				return failed(err)
+			}
+			expr, err = parser.ParseExpression(depth + 1)
+			if err != nil {
+				return failed(err)
+			}
+			if _, err = parser.ParserPeekNextToken(0); err != nil {
+				return failed(err)
+			}
+
+			// eat up the end paren
+			tok, err = lexer.GetNextToken()
+			if err != nil {
+				return failed(err)
+			}
+			// make sure it was actually an end paren
+			if tok.typ != TokenRParen {
+				return failed(errors.New("extra value in dotted pair"))
+			}
+			start.Tail = expr
+			return finish(start)
 		}
-		// make sure it was actually an end paren
-		if tok.typ != TokenRParen {
-			return SexpNull, errors.New("extra value in dotted pair")
+
+		// on to the rest of the list
+		if first == nil {
+			first = start
+		} else {
+			last.Tail = start
 		}
-		start.Tail = expr
-		return start, nil
+		last = start
 	}
-
-	expr, err = parser.ParseList(depth+1, endTokenTyp)
-	if err != nil {
-		return start, err
-	}
-	start.Tail = expr
-
-	return start, nil
 }
 
 func (parser *Parser) ParseArray(depth int) (Sexp, error) {
